@@ -31,7 +31,7 @@ pub fn abs(root: &Path, key: &str) -> PathBuf {
     if key == "." {
         root.to_path_buf()
     } else {
-        root.join(key)
+        root.join(crate::util::os(key))
     }
 }
 
@@ -53,7 +53,7 @@ pub fn materialise(root: &Path, tree: &Tree) -> io::Result<()> {
         match node {
             Node::Dir => fs::create_dir_all(&p)?,
             Node::File(b) => fs::write(&p, &b.0)?,
-            Node::Symlink(t) => std::os::unix::fs::symlink(t, &p)?,
+            Node::Symlink(t) => std::os::unix::fs::symlink(crate::util::os(t), &p)?,
         }
     }
     Ok(())
@@ -141,9 +141,9 @@ pub fn snapshot(root: &Path) -> io::Result<Snapshot> {
             let e = e?;
             let path = e.path();
             let m = fs::symlink_metadata(&path)?;
-            let key = path.strip_prefix(root).unwrap().to_string_lossy().to_string();
+            let key = crate::util::path_decode(path.strip_prefix(root).unwrap().as_os_str().as_bytes());
             let node = if m.file_type().is_symlink() {
-                Node::Symlink(fs::read_link(&path)?.to_string_lossy().to_string())
+                Node::Symlink(crate::util::path_decode(fs::read_link(&path)?.as_os_str().as_bytes()))
             } else if m.is_dir() {
                 Node::Dir
             } else {
